@@ -23,3 +23,5 @@ pub mod props_c15;
 pub mod props_c17;
 pub mod props_c18;
 pub mod props_c16;
+pub mod fuzz_api;
+pub mod fuzzstage;
